@@ -77,6 +77,24 @@ def r1_flow_vs_abi(r, facts):
         pos = api.fill_labels(facts, f, roles, a)
         got = {str(off): sorted(l for l in d['labels'] if not l.startswith('k:')) for off, d in pos.items()}
         r.inst(key, f.where(), ' '.join('@%s=%s' % (k, ','.join(v)) for k, v in sorted(got.items(), key=lambda kv: int(kv[0]))))
+        # path coverage: under which enum-match arms a position is written ([] = on every path)
+        when = {}
+        for off, d in pos.items():
+            cs = []
+            uncond = False
+            for w in d['writes']:
+                c = sorted({'%s::%s' % (x[0].split('::')[-1] if x[0] else '?', x[1]) for x in w.conds if x[0] and not x[0].startswith(('std::option::', 'std::result::', 'std::ops::'))})
+                if not c:
+                    uncond = True
+                cs.append(c)
+            when[str(off)] = [] if uncond else sorted({tuple(c) for c in cs})
+            when[str(off)] = [list(x) for x in when[str(off)]]
+        want_when = row.get('when', {})
+        for off in sorted(set(when) | set(want_when), key=int):
+            if when.get(off, []) != want_when.get(off, []):
+                where = pos[int(off)]['writes'][0].where if int(off) in pos else f.where()
+                r.bad('%s/@%s/paths' % (key, off), 'SQE position %s (%s) is written under %s, the ABI row expects %s (on some paths the request is sent without this argument)' % (
+                    off, sqe.POS_NAMES.get(int(off), '?'), when.get(off, []) or 'every path', want_when.get(off, []) or 'every path'), where)
         for off in sorted(set(got) | set(row['positions']), key=int):
             g, w = got.get(off), row['positions'].get(off)
             if g != w:
